@@ -4,13 +4,14 @@ import instr_corr
 
 def explore(run, lean):
     instr_corr.explore(run, "C21", 400 if run.tier == "quick" else 8000)
-    if "C21" == "C20":
-        instr_corr.deep_probe(run)
+    instr_corr.long_history_probe(run, "C21", 560 if run.tier == "quick" else 1700)
     run.extra["rule"] = ("random spied charts (<=7 states) on an instrumented HsmWithQueues whose handlers post/defer/recall/scribble; "
                          "scripts of start_at + 2-12 client ops (posts, defer, recall, next_rtc), some with a post before start_at; "
                          "ring sizes real (250/500/500) or reduced (full spy 20-120, trace 2-5); scripted clocks (fine, coarse, "
                          "constant, running backwards); rtc spy after every op, full spy, trace and both live streams compared with "
-                         "the Lean model; the oracle compares the spy lines with the handlers' own invocation record")
+                         "the Lean model; the oracle compares the spy lines with the handlers' own invocation record; "
+                         "plus two histories longer than the 500-entry rings (560 / 1700 steps, real ring sizes): compared with the model, "
+                         "one live trace line per transition step")
     run.assumptions.append("at most rtcCap (250) handler calls per step; beyond that see the known findings")
 
 
